@@ -602,7 +602,15 @@ func (h *bhost) classifyPanic(x interface{}) (rule, msg string) {
 			if addr < 1<<20 && anyDetached {
 				return "access-after-detach", fmt.Sprintf("memory access at nil+%d through the data pointer of a detached buffer", addr)
 			}
-			return "out-of-bounds-access", fmt.Sprintf("memory fault at address %#x outside every buffer", addr)
+			// no raw address in the message (it differs from process to process): distance from the receiver's buffer
+			if h.op != nil {
+				if ob := h.op.opBufs(h.m); len(ob) > 0 && ob[0].id >= 0 && ob[0].id < len(h.bufs) && h.bufs[ob[0].id] != nil && h.bufs[ob[0].id].slab != nil {
+					s := h.bufs[ob[0].id].slab
+					base := uintptr(unsafe.Pointer(unsafe.SliceData(s.page))) + uintptr(s.off)
+					return "out-of-bounds-access", fmt.Sprintf("memory fault outside every buffer, %d bytes from the start of %s", int64(addr)-int64(base), bname(ob[0].id))
+				}
+			}
+			return "out-of-bounds-access", "memory fault at an address outside every buffer"
 		}
 		if strings.Contains(re.Error(), "nil pointer dereference") && anyDetached {
 			return "access-after-detach", "memory access at nil+small offset through the data pointer of a detached buffer (" + re.Error() + ")"
@@ -1434,6 +1442,7 @@ func init() {
 			"after a fault fired inside step s, step s is judged by the relaxed oracle only (throws TypeError/RangeError or completes; bytes may differ from the model only inside the range the fault-free step writes plus what the host itself wrote); its result object is not used by later steps",
 			"ArrayBuffer.prototype.slice on a detached buffer and host-side Export() of a view over a detached buffer are not asserted",
 			"error precedence between the content-type TypeError and the RangeError of %TypedArray%.prototype.set is not asserted; the order in which argument coercions run is not asserted",
+			"[[Set]]/Reflect.set with a key that is a canonical numeric string but not a valid integer index and a value of the wrong content type may throw TypeError or complete silently (goja coerces with the generic ToNumeric there: `new Uint8Array(1)[1.5] = 1n` raises no TypeError); no byte may change either way",
 			"resizable ArrayBuffers are not implemented by goja and are not part of the workload",
 		},
 		FaultKinds: []string{"detach", "retarget", "gowrite", "species-shrink", "species-detached", "species-retype", "species-alias"},
